@@ -196,6 +196,7 @@ REG["C07"] = {
 REG["C08"] = {
     "units": ["expectation"],
     "thorough_extra": ["replay"],
+    "quick_extra": ["replay"],
     "scope": "PARTIAL — the line grammar around the regular expression. ExpectationMaker::extract returns line_parts(line): a final `<ws>(<kind><quantifier>)` group whose kind is a registered "
              "name (or empty) and that has a kind and/or a quantifier is the modifier, everything before it is the expression verbatim, an empty kind means `equal`; every other line -- also one "
              "ending in `()` -- is an `equal` expectation for the whole line (lemma_mod_split_unique: the decomposition is unique, the regular expression has no choice). ExpectationMaker::parse: "
@@ -278,6 +279,6 @@ NOT_APPLICABLE = [
     {"property_id": "C15", "reason": "decision is interleaved with process spawning/TempDir/Instant inside execute_all; a modular contract would need almost the whole body behind external_body stubs (DESIGN §10)"},
     {"property_id": "C17", "reason": "reader is serde_yaml (external), writer is format!; an inverse law needs the parser's semantics (DESIGN §10)"},
     {"property_id": "C18", "reason": "filesystem effects and Drop of tempfile::TempDir across process exits; outside any function contract (DESIGN §10)"},
-    {"property_id": "C19", "reason": "being built (panic freedom of two helpers, partial/bounded) — not yet claimed"},
+    {"property_id": "C19", "reason": "console::style, width arithmetic over format!, serde; the two helpers in reach (space_start_index, Decorator::output_line_number) have callers whose preconditions are out of reach (DESIGN §10)"},
     {"property_id": "C20", "reason": "commands/test.rs + main.rs over real executions; what matters is the executor's interaction with the OS (DESIGN §10)"},
 ]
